@@ -139,6 +139,39 @@ pub fn gen_plan(rng: &mut Rng, thorough: bool) -> FramePlan {
     FramePlan { knobs, streams }
 }
 
+/// object members that are `null` and members that are absent mean the same for optional fields
+fn strip_nulls(v: &Value) -> Value {
+    match v {
+        Value::Object(o) => Value::Object(
+            o.iter()
+                .filter(|(_, x)| !x.is_null())
+                .map(|(k, x)| (k.clone(), strip_nulls(x)))
+                .collect(),
+        ),
+        Value::Array(a) => Value::Array(a.iter().map(strip_nulls).collect()),
+        other => other.clone(),
+    }
+}
+
+/// the decoded message, encoded again, is the document it was decoded from (the value-space half
+/// of the property riding along: ids, versions and payloads at the limits of their types)
+fn value_round_trip(bad: &mut Vec<(String, String, String)>, doc: &Value, again: Option<Value>) {
+    let Some(again) = again else {
+        bad.push(("C14".into(), "a decoded message cannot be encoded again".into(), shorten(&doc.to_string())));
+        return;
+    };
+    // the payload of a message ("value", key/value pairs) is arbitrary JSON and must survive as
+    // it is; only the envelope's optional members may be dropped when they are null
+    let (a, b) = (strip_nulls(doc), strip_nulls(&again));
+    if a != b {
+        bad.push((
+            "C14".into(),
+            "a message decoded and encoded again differs from the original".into(),
+            format!("{} became {}", shorten(&doc.to_string()), shorten(&again.to_string())),
+        ));
+    }
+}
+
 fn shorten(s: &str) -> String {
     if s.len() > 300 {
         let mut e = 300;
@@ -174,12 +207,18 @@ async fn one_stream(i: usize, sp: StreamPlan) -> Vec<(String, String, String)> {
             // every generated document is a well-formed message of the protocol by construction:
             // the decoder under test refusing one is a finding, not a reason to skip it
             match serde_json::from_str::<ClientMessage>(&m.to_string()) {
-                Ok(t) => typed_c.push(t),
+                Ok(t) => {
+                    value_round_trip(&mut bad, m, serde_json::to_value(&t).ok());
+                    typed_c.push(t)
+                }
                 Err(e) => bad.push(("C14".into(), "a well-formed message is rejected by the decoder".into(), format!("client message {} is rejected by the decoder: {e}", shorten(&m.to_string())))),
             }
         } else {
             match serde_json::from_str::<ServerMessage>(&m.to_string()) {
-                Ok(t) => typed_s.push(t),
+                Ok(t) => {
+                    value_round_trip(&mut bad, m, serde_json::to_value(&t).ok());
+                    typed_s.push(t)
+                }
                 Err(e) => bad.push(("C14".into(), "a well-formed message is rejected by the decoder".into(), format!("server message {} is rejected by the decoder: {e}", shorten(&m.to_string())))),
             }
         }
